@@ -192,6 +192,53 @@ tzm_mname_size(tzmap_t m)
 	return fz - tzm_zname_size(m) - sizeof(*m);
 }
 
+static int
+tzm_valid_p(const struct tzmap_s *m, size_t fz)
+{
+/* tzm_find() scans the mapped names for \nul bytes and follows zone
+ * offsets without looking at the file size, so make sure up front that
+ * this cannot lead outside of the file:  the zone name pool is \nul
+ * terminated, the mapped names consist of whole words, start with a
+ * key and end in a zone offset, and every zone offset, that is every
+ * word starting with \nul, ends in \nul and points into the pool */
+	const size_t off = m->off;
+	const unsigned char *mn;
+	size_t mz;
+
+	if (UNLIKELY(fz != (znoff_t)fz)) {
+		/* the size is kept in a znoff_t */
+		return 0;
+	} else if (UNLIKELY(off < sizeof(znoff_t) || off > fz - sizeof(*m))) {
+		return 0;
+	} else if (UNLIKELY(m->data[off - 1U] != '\0')) {
+		return 0;
+	}
+	mn = (const unsigned char*)m->data + off;
+	mz = fz - sizeof(*m) - off;
+	if (mz == 0U) {
+		/* no names mapped, fair enough */
+		return 1;
+	} else if (UNLIKELY(off % sizeof(znoff_t) || mz % sizeof(znoff_t))) {
+		return 0;
+	} else if (UNLIKELY(mz < 2U * sizeof(znoff_t))) {
+		/* not even a key and a zone offset */
+		return 0;
+	} else if (UNLIKELY(mn[0U] == '\0' || mn[mz - sizeof(znoff_t)] != '\0')) {
+		return 0;
+	}
+	for (size_t i = 0U; i + sizeof(znoff_t) <= mz; i += sizeof(znoff_t)) {
+		if (mn[i] != '\0') {
+			/* part of a key */
+			continue;
+		} else if (UNLIKELY(mn[i + 3U] != '\0')) {
+			return 0;
+		} else if (UNLIKELY(((size_t)mn[i + 1U] << 8U | mn[i + 2U]) >= off)) {
+			return 0;
+		}
+	}
+	return 1;
+}
+
 DEFUN tzmap_t
 tzm_open(const char *fn)
 {
@@ -215,6 +262,9 @@ tzm_open(const char *fn)
 	}
 	/* turn offset into native endianness */
 	m->off = be32toh(m->off);
+	if (UNLIKELY(!tzm_valid_p(m, fz))) {
+		goto mun;
+	}
 	/* also put fd and map size into m */
 	m->flags[0U] = (znoff_t)fd;
 	m->flags[1U] = (znoff_t)st->st_size;
@@ -251,6 +301,10 @@ tzm_find(tzmap_t m, const char *mname)
 	const znoff_t *ep = sp + tzm_mname_size(m) / sizeof(*sp) - 1U;
 	const char *zns = tzm_znames(m);
 
+	if (UNLIKELY(ep < sp)) {
+		/* nothing mapped */
+		return NULL;
+	}
 	/* do a bisection now */
 	do {
 		const char *mp = mname;
